@@ -87,6 +87,10 @@ pub trait Property: Send + Sync + 'static {
         "exploration"
     }
     fn rule(&self) -> String;
+    /// generator regimes shared by several checks (appended to the rule in the evidence)
+    fn regimes(&self) -> &'static str {
+        ""
+    }
     fn assumptions(&self) -> Vec<String> {
         vec![]
     }
@@ -652,7 +656,7 @@ pub fn run_property<P: Property>(p: &P, cfg: &RunCfg) -> i32 {
     let mut coverage = serde_json::Map::new();
     coverage.insert("evaluations".into(), json!(total.evaluations));
     coverage.insert("distinct_nontrivial".into(), json!(total.nontrivial.len()));
-    coverage.insert("rule".into(), json!(p.rule()));
+    coverage.insert("rule".into(), json!(format!("{}{}", p.rule(), p.regimes())));
     coverage.insert("samples".into(), json!(samples));
     coverage.insert("classes".into(), json!(total.classes));
     coverage.insert("skipped_subchecks".into(), json!(total.skipped));
